@@ -21,10 +21,10 @@ p = "/verif/DESIGN.md"; s = open(p).read()
 m = re.search(r"\n(\d+) of (\d+) seeds were missed at first", s)
 a, b = int(m.group(1)), int(m.group(2))
 row = f"| {name} | {needs} | {det} | {'no → ' + missed if missed else 'yes'} |\n"
-s = s.replace(m.group(0), "X_PLACEHOLDER", 1)
-idx = s.index("X_PLACEHOLDER")
-# rows end just before the blank line preceding the placeholder
-s = s[:idx].rstrip("\n") + "\n" + row + "\n" + f"{a + (1 if missed else 0)} of {b + 1} seeds were missed at first" + s[idx + len("X_PLACEHOLDER"):]
+s = s.replace(m.group(0), f"\n{a + (1 if missed else 0)} of {b + 1} seeds were missed at first", 1)
+# rows end just before the "Seeds not kept" paragraph that follows the table
+idx = s.index("\n\nSeeds not kept")
+s = s[:idx] + "\n" + row.rstrip("\n") + s[idx:]
 open(p, "w").write(s)
 subprocess.call(["git", "-C", "/repo", "worktree", "remove", "--force", f"/tmp/wt-{k}"])
 print("stored", name)
